@@ -201,7 +201,7 @@ namespace tt {
         double x = rng.range(-2., 2.);
         if (mode == 1) x = double(rng.below(7) - 3);                  // small integers, zeros and ties included
         if (mode == 2) x *= fac;                                      // another magnitude for every input
-        if (op.in[k] == 't' && !op.hyp.empty() && op.hyp.find(std::string("$N ") + char('a' + k)) != std::string::npos) {
+        if ((op.in[k] == 't' || op.in[k] == 's') && !op.hyp.empty() && op.hyp.find(std::string("$N ") + char('a' + k)) != std::string::npos) {
           // must be invertible: identity + perturbation of size < 1/3 (diagonally dominant => det > 0)
           x = (i < 3 ? 1. + rng.range(-.3, .6) : rng.range(-.3, .3));
         }
